@@ -35,7 +35,7 @@ CHECKS = {
          "On the implementation every API call's executed control-flow edges are checked against a linear budget in input+output bytes (9x head-room over the measured maximum), with a watchdog, "
          "on malformed, shipped and pathological inputs; that found the cyclic-CHM hang repaired by f3ee904."
          " Since then proved (C04Loops): with the fuel the entry points pass, the out-of-fuel outcome is unreachable for every input in the LZSS/SZDD/KWAJ, OAB, CHM (headers, fast_find, section 0), KWAJ LZH, MSZIP and LZX loops and the CAB stored-folder loop."
-         " Quantum (C04Qtm): no hang over any finite source for every state a session begun by qtmd_init reaches and every request below 2^32 - 2^21; the bound is sharp (the model and qtmd.c both spin on a 2^32-byte request, observation O3; not reachable through cabd). cabd_extract as a whole (C04CabExtract): fuel-invariant skeleton, discharged for all methods (C04CabSession): any session of extract() calls on single-cabinet folders never runs out of fuel; chains under a static condition on the model's fuel."),
+         " Quantum (C04Qtm): no hang over any finite source for every state a session begun by qtmd_init reaches and every request below 2^32 - 2^21; the bound is sharp (the model and qtmd.c both spin on a 2^32-byte request, observation O3; not reachable through cabd). cabd_extract as a whole (C04CabExtract): fuel-invariant skeleton, discharged for all methods (C04CabSession): any session of extract() calls on single-cabinet folders never runs out of fuel; chains under a static condition on the model's fuel. CHM (C04ChmSession): no session of extract() calls on opened headers runs out of fuel."),
    note=PROOF_NOTE + " Wall-clock time is not covered; the budget constants are calibrated, not derived.", technique="Lean 4 termination measures + instrumented edge budget and watchdog on the implementation"),
  "C09": dict(category="proof",
    text=("Theorems on effect models of the SZDD, KWAJ and OAB decompressors over an instrumented mspack_system (ledger of live allocations and handles, fault plan, misuse monitor): for every client program (create; any list of decompress / open + extracts + close; destroy), every file content and every fault plan (any set of failing alloc/open/read/write/seek calls) the ledger after the program equals the ledger before it and no misuse is recorded "
@@ -91,7 +91,7 @@ CHECKS = {
    note=PROOF_NOTE, technique="Lean 4 theorems (case analysis over cabd_extract's phases + induction for the stored decoder) + written/declared/status oracle on the implementation"),
  "C08": dict(category="proof",
    text=("CAB: theorems that whenever the cached decoder is not re-usable for a request (other folder, backward seek, dead decoder) extract behaves exactly like a fresh instance, and C08_stored_any_order - for a stored folder ANY list of extract() calls on members inside the folder's data (forward through the cached decoder, backward through a rebuilt one, repeated) returns OK with exactly each member's bytes, the fresh-instance result. "
-         "MSZIP: the chunking law is a theorem (C08Mszip: a then b = a+b, same bytes and final state, both directions; any split; a decoder-level model of the re-use rule serves any request list in any order), lifted to cabd's decoder call and through cabd_extract itself (C08MszipCab: any list of extract() calls on members of an MSZIP folder that decodes returns each member's slice of the one-shot result; single-cabinet folders unconditionally, multi-cabinet ones under a static fuel condition of the model); the LZX chunking law is not proved; Quantum's converse law is false for windows < 32 KiB (known finding D2); CHM: section-0 members are history-free in any session (C08Chm, C08ChmSession). MSZIP: after OK histories any further call equals the fresh one, failing or not (C08MszipFree). These are covered by the oracle: in random histories (repetition, interleaved archives, damaged folders, two cabinets with a damaged second one) over CAB sets and CHM files, "
+         "MSZIP: the chunking law is a theorem (C08Mszip: a then b = a+b, same bytes and final state, both directions; any split; a decoder-level model of the re-use rule serves any request list in any order), lifted to cabd's decoder call and through cabd_extract itself (C08MszipCab: any list of extract() calls on members of an MSZIP folder that decodes returns each member's slice of the one-shot result; single-cabinet folders unconditionally, multi-cabinet ones under a static fuel condition of the model); the LZX chunking law is not proved; Quantum's converse law is false for windows < 32 KiB (known finding D2); CHM: section-0 members are history-free in any session (C08Chm, C08ChmSession). MSZIP, strict mode: ANY history of extract() calls, failing ones included, every returning call equals the fresh instance (C08_mszip_history_free). These are covered by the oracle: in random histories (repetition, interleaved archives, damaged folders, two cabinets with a damaged second one) over CAB sets and CHM files, "
          "every call is compared with the same member on a fresh decompressor; plus model/implementation agreement per call."),
    note=PROOF_NOTE, technique="Lean 4 theorems (cache decision of cabd_extract; invariant over call sequences for stored folders) + history-vs-fresh oracle + differential runs"),
  "C02": dict(category="proof",
@@ -101,7 +101,7 @@ CHECKS = {
          "formats, the shipped crashers and guard-directed constructions, with model/implementation agreement on statuses. Found and repaired on the way: c13e5b8, 004b113, a66a89b."
          " Also: make_decode_table's acceptance rule (model Huff.accepts) is compared with the three instantiations on the ten shapes their callers use, and the same code-length vectors are fed through MSZIP and KWAJ LZH streams; found and repaired: 797f74d (use-after-free after joining a multi-folder cabinet with a PREV_AND_NEXT entry)."
          " Memory safety is now a theorem on the decoder models: the out-of-bounds (null-dereference, shift-width, division, uninitialised-table) outcomes are unreachable for every input and every sequence of calls in the LZSS, KWAJ header, KWAJ LZH, MSZIP, LZX (under LenStable and stream position < 2^31) and Quantum decoders and in the CHM layer (readHeaders, fastFind: no fault at all; extract: only what the LZX decoder passes on)."
-         " CAB lift (C02CabLift): the feeder's own faults are only the two null dereferences of cabd_sys_read_block and none while it is live; Quantum/MSZIP folders have no oob/uninit/divZero/shiftWidth for every feeder state, stored folders no fault for any call sequence; the length announced to LZX is a read-closed invariant (LenStable over all feeder states is false, so the LZX lift is _partial: stated for the feeder with filtered announcements). CHM (C02ChmExtract): no nullDeref/divZero/shiftWidth in any session, section-0/open/fast_find fault-free; oob of section-1 extracts per decoder call only. END TO END (C02CabExtract): for every files/params/member list, any session of extract() calls from a fresh decompressor never ends in oob/nullDeref/divZero/shiftWidth - no hypothesis left. LZX folders: LenStable discharged on reachable states by a relational walk (C02CabLift4: no oob/nullDeref/divZero/shiftWidth for the real feeder; position < 2^31 remains). MSZIP and Quantum folders: liveness threaded through the decoder (C02CabLift2, C02CabLift3) - no fault of any kind for any call sequence from a fresh folder state, no source hypothesis."),
+         " CAB lift (C02CabLift): the feeder's own faults are only the two null dereferences of cabd_sys_read_block and none while it is live; Quantum/MSZIP folders have no oob/uninit/divZero/shiftWidth for every feeder state, stored folders no fault for any call sequence; the length announced to LZX is a read-closed invariant (LenStable over all feeder states is false, so the LZX lift is _partial: stated for the feeder with filtered announcements). OAB (C02OabExtract): never nullDeref/divZero/shiftWidth for any input. CHM (C02ChmExtract): no nullDeref/divZero/shiftWidth in any session, section-0/open/fast_find fault-free; oob of section-1 extracts per decoder call only. END TO END (C02CabExtract): for every files/params/member list, any session of extract() calls from a fresh decompressor never ends in oob/nullDeref/divZero/shiftWidth - no hypothesis left. LZX folders: LenStable discharged on reachable states by a relational walk (C02CabLift4: no oob/nullDeref/divZero/shiftWidth for the real feeder; position < 2^31 remains). MSZIP and Quantum folders: liveness threaded through the decoder (C02CabLift2, C02CabLift3) - no fault of any kind for any call sequence from a fresh folder state, no source hypothesis."),
    note=PROOF_NOTE + " Sanitizers see heap/stack/global object bounds, not sub-object overflows inside one allocation.",
    technique="Lean 4 theorems on the block reader/feeder model + sanitizer-instrumented differential fuzzing of malformed inputs"),
  "C01": dict(category="proof",
@@ -120,7 +120,7 @@ CHECKS = {
          "delivers is delivered identically under any combination of ignore-checksum / ignore-blocksize. The lift through feeder, decoders and extract is checked by "
          "model/implementation agreement and by the oracle: identical listing and bytes under all four SALVAGE x FIXMSZIP combinations for strict-valid cabinets; for the two listed "
          "defect classes salvage lists exactly the remaining members / extracts the original bytes."
-         " For stored folders the lift is proved: C18_stored_params_irrelevant - any call sequence gives identical results under any two parameter records. Feeder and MSZIP decoder (C18Decoders): an OK strict run is reproduced byte for byte with SALVAGE/FIXMSZIP set."),
+         " For stored folders the lift is proved: C18_stored_params_irrelevant - any call sequence gives identical results under any two parameter records. Feeder and MSZIP decoder (C18Decoders): an OK strict run is reproduced byte for byte with SALVAGE/FIXMSZIP set; lifted through cabd_extract and whole sessions for stored and MSZIP folders (C18ExtractLift)."),
    note=PROOF_NOTE, technique="Lean 4 theorems (monotonicity of header and block readers in the relaxation flags, by induction) + differential runs over the four parameter combinations"),
  "C14": dict(category="proof",
    text=("Theorems on the model of cabd_find: the result is independent of the search-buffer size (every n>=1), the restart logic always advances "
